@@ -157,8 +157,22 @@ class RecArray:
         return np.array(self.vals, dtype=dtype or float)
 
 
+class vf:
+    """A user namespace whose functions share their last name component with the functions fsic replaces (exp, log, max,
+    min) but mean something else: they must reach the generated code untouched ("leaving namespaced functions ... untouched")."""
+
+    @staticmethod
+    def exp(x):
+        return x * 2 + 100
+
+    @staticmethod
+    def max(a, b):
+        return a - b * 3
+
+
 FUNCS = {
     'exp': np.exp, 'log': np.log, 'np.sqrt': np.sqrt, 'abs': abs, 'max': max, 'min': min, 'np.exp': np.exp, 'np.log': np.log,
+    'vf.exp': vf.exp, 'vf.max': vf.max,
 }
 BINOPS = {'+': operator.add, '-': operator.sub, '*': operator.mul, '/': operator.truediv, '**': operator.pow}
 CMPOPS = {'<': operator.lt, '<=': operator.le, '>': operator.gt, '>=': operator.ge, '==': operator.eq, '!=': operator.ne}
